@@ -17,6 +17,8 @@ CONSTANTS
   RawArgs <- RawFew
   BestArgs <- BestFew
   WhereArgs <- WhereFew
+  WhereIArgs <- WhereIFew
+  Namings <- NamesAll
   MAVals <- MAV3
   MAMaxLen = 3
   MASpans <- MAS5
